@@ -2,7 +2,7 @@ package main
 
 func init() {
 	register("C12", &PropDef{
-		Explain: "Crash points and interleavings are out of reach; decided are the mechanisms without which the property fails for some history: (R1) a failed LoadOffset must not restart from the beginning — its error is tested and the non-nil arm returns before Replay is called, and Replay starts at the loaded offset; (R2) offset provenance — the offset passed to every SaveOffset in SubscribeWithReplay's closures originates from the Offset of the stored event just handled (not from bus-global state), under the caller's subscription id; lastOffset itself only advances on successful appends; (R3) handle before save — the user's handler call precedes SaveOffset on every path of both closures; (R4) replay-to-live hand-off — necessary condition: a mechanism excluding appends between the replay's last read and the live registration, or a catch-up read after it; (R5) stores key saved offsets by subscription id (memory map; the SQLite upsert is checked under C10.R5); (R6) the replay the subscription relies on returns nil only on exhaustion (C11.R2).",
+		Explain: "Crash points and interleavings are out of reach; decided are the mechanisms without which the property fails for some history: (R1) a failed LoadOffset must not restart from the beginning — its error is tested and the non-nil arm returns before Replay is called, and Replay starts at the loaded offset; (R2) offset provenance — the offset passed to every SaveOffset in SubscribeWithReplay's closures originates from the Offset of the stored event just handled (not from bus-global state), under the caller's subscription id; lastOffset itself only advances on successful appends; (R3) handle before save — the user's handler call precedes SaveOffset on every path of both closures; (R4) replay-to-live hand-off — necessary condition: a mechanism excluding appends between the replay's last read and the live registration, or a catch-up read after it; (R5) stores key saved offsets by subscription id (memory map; the SQLite upsert is checked under C10.R5); (R6) the replay the subscription relies on returns nil only on exhaustion (C11.R2); (R8) the SQLite reads a resumed subscription relies on start strictly after the saved offset: the position bound to every SELECT of Read/ReadStream derives from the caller's offset, traced through parameters, helper results and plan/cursor structs field by field, an unset literal field counting as zero.",
 		Run: func(c *Ctx) {
 			c.Rule("C12.R1", "a failed LoadOffset stops the call; replay starts at the loaded offset")
 			c.Rule("C12.R2", "the saved offset is the handled event's own offset, under the caller's id; lastOffset never regresses")
@@ -27,6 +27,8 @@ func init() {
 			if ps := c.Prog(ModSQLite); ps != nil {
 				checkSQLOwnership(c, ps, "C12.R5")
 				checkAck(c, ps, "C12.R5", "SaveOffset")
+				c.Rule("C12.R8", "a read or stream of the SQLite store resumed from a saved offset starts strictly after it (the bound start position derives from the caller's offset, never a zero value)")
+				checkReadStartsAfterFrom(c, ps, "C12.R8")
 			}
 			c.Assume = append(c.Assume, "SaveOffset's own error is ignored by SubscribeWithReplay (benign for the property as stated: an unsaved position only causes re-delivery)")
 		},
